@@ -186,7 +186,7 @@ Definition c15_aligned_allocate (sT aT : N) (al : option N) (n : N) (sys : N -> 
   else match sys (c15_aligned_alignment aT al) (c15_wrap (n * sT)) with None => C15BadAlloc | Some p => C15Ok p end.
 
 (* the stand-in system allocator of the executable runs: serves everything below `limit` bytes *)
-Definition c15_sys_limit : N := 2 ^ 46.
+Definition c15_sys_limit : N := 2 ^ 47.   (* beyond the 47-bit user address space: can never be served *)
 Definition c15_sys_malloc (bytes : N) : option N := if bytes <? c15_sys_limit then Some 0 else None.
 Definition c15_sys_aligned (al bytes : N) : option N := if bytes <? c15_sys_limit then Some 0 else None.
 
@@ -246,7 +246,8 @@ Definition c15_dbg_deallocate_orig := c15_dbg_deallocate_gen false.
 
 (* stand-in mmap of the executable runs: bump allocator of page-aligned addresses, refuses >= limit.
    state = next free address *)
-Definition c15_sys_mmap (next len : N) : option N := if (0 <? len) && (len <? c15_sys_limit) then Some next else None.
+Definition c15_sys_mmap (next len : N) : option N :=
+  if (0 <? len) && (len <? c15_sys_limit) && (next + len <=? 2 ^ 64) then Some next else None.
 
 Inductive c15_dbg_obs := DObsOk (off : N) (cap : N) (guard_at_end : bool) | DObsBadAlloc | DObsFreed | DObsAbort (e : c15_dbg_err) | DObsPrecond.
 
